@@ -422,3 +422,90 @@ pub fn def() -> PropertyDef {
         subs,
     }
 }
+
+// ---------------------------------------------------------------------------
+// entry points of the libFuzzer targets (/verif/fuzz)
+
+fn with_fx<B: Backend, T>(f: impl FnOnce(&Fx<B>) -> T) -> T {
+    use std::any::Any;
+    use std::cell::RefCell;
+    use std::collections::HashMap;
+    thread_local! {
+        static FX: RefCell<HashMap<&'static str, Box<dyn Any>>> = RefCell::new(HashMap::new());
+    }
+    FX.with(|m| {
+        let mut m = m.borrow_mut();
+        let e = m.entry(B::NAME).or_insert_with(|| {
+            crate::rng::set_seeded(0xf022);
+            let _ = libsodium_rs::ensure_init();
+            Box::new(fixture::<B>(0xf022, Tier::Quick)) as Box<dyn Any>
+        });
+        f(e.downcast_ref::<Fx<B>>().expect("fixture type"))
+    })
+}
+
+macro_rules! by_backend {
+    ($sel:expr, $B:ident => $body:expr) => {
+        match $sel % 6 {
+            0 => { type $B = BV1; $body }
+            1 => { type $B = BV2; $body }
+            2 => { type $B = BV3; $body }
+            3 => { type $B = BV3Lc; $body }
+            4 => { type $B = BV4; $body }
+            _ => { type $B = BV4Na; $body }
+        }
+    };
+}
+
+pub fn fuzz_string(backend: u8, s: &str) {
+    by_backend!(backend, B => with_fx::<B, _>(|fx| {
+        let mut st = Vec::new();
+        exercise_string::<B>(fx, s, &mut st);
+    }))
+}
+
+pub fn fuzz_key_bytes(backend: u8, kind: u8, bytes: &[u8]) {
+    let kind = ["Local", "Public", "Secret", "PkePublic", "PkeSecret"][kind as usize % 5];
+    by_backend!(backend, B => with_fx::<B, _>(|fx| {
+        let mut st = Vec::new();
+        exercise_key_bytes::<B>(fx, kind, bytes, &mut st);
+    }))
+}
+
+pub fn fuzz_edited(backend: u8, base: u16, edits: &[(u8, u16, u8)]) {
+    let edits: Vec<Edit> = edits
+        .iter()
+        .map(|(k, a, b)| match k % 7 {
+            0 => Edit::Subst(*a, *b),
+            1 => Edit::Insert(*a, *b),
+            2 => Edit::Delete(*a),
+            3 => Edit::Append(*b),
+            4 => Edit::DupSegment,
+            5 => Edit::SwapHeader(*b),
+            _ => Edit::Truncate(*a),
+        })
+        .collect();
+    by_backend!(backend, B => with_fx::<B, _>(|fx| {
+        let (s, _) = materialise::<B>(fx, &Input::Edited { base, edits: edits.clone() });
+        let mut st = Vec::new();
+        if let Some(s) = s {
+            exercise_string::<B>(fx, &s, &mut st);
+        }
+    }))
+}
+
+/// seed corpus for the fuzz targets: library-produced valid strings of every kind
+pub fn fuzz_seeds() -> Vec<(String, Vec<u8>)> {
+    let mut out = Vec::new();
+    let mut idx = 0u8;
+    crate::for_backends!(B => {
+        crate::rng::set_seeded(0x5eed);
+        for (j, (kind, s)) in texttypes::valid_strings::<B>(&KeySeed::from_u64(0x5eed)).into_iter().enumerate() {
+            let mut v = vec![idx];
+            v.extend_from_slice(s.as_bytes());
+            out.push((format!("{}-{kind}-{j}", B::NAME), v));
+        }
+        idx += 1;
+    });
+    out
+}
